@@ -12,9 +12,13 @@ import (
 )
 
 func main() {
-	const goroutines, rounds = 8, 50
+	// usage: verif-race [quick|thorough]
+	goroutines, rounds, outer := 32, 40, 3
+	if len(os.Args) > 1 && os.Args[1] == "quick" {
+		goroutines, rounds, outer = 16, 25, 1
+	}
 	ops := 0
-	for round := 0; round < 3; round++ {
+	for round := 0; round < outer; round++ {
 		for _, sc := range scen.Scenarios() {
 			// sequential reference on a fresh instance
 			ref := scen.Scenarios()
